@@ -95,7 +95,7 @@ class Gfx(util.BaseSection):
             datastrs.append(bytearray.fromhex(larray_str))
 
         data = b''.join(datastrs)
-        return cls(data=data, version=version)
+        return cls(data=cls._pad_data(data, version), version=version)
 
     def to_lines(self):
         """Generates lines of ASCII-encoded hexadecimal strings.
